@@ -5,7 +5,7 @@ From AUC Require Import Prelude.PyStr Gen.Eventing C15.Model C15.Spec C15.Lemmas
 Import ListNotations.
 Local Open Scope Z_scope.
 
-Definition adv_of (o : op) : Z := match o with OAdv dt => Z.of_N dt | _ => 0 end.
+Definition adv_of (o : op) : Z := match o with OAdv dt => Z.of_N dt | OLate dt _ _ => Z.of_N dt | _ => 0 end.
 
 Section Steps.
   Variable c : cfg.
